@@ -82,6 +82,17 @@ class ContinuousDiscretizer(BaseDiscretizer):
         # checking X and y
         x_copy = self._prepare_data(X, y)
 
+        # checking for quantitative columns
+        not_numeric = [
+            feature
+            for feature in self.quantitative_features
+            if any(isinstance(value, str) for value in x_copy[feature])
+        ]
+        assert len(not_numeric) == 0, (
+            f" - [ContinuousDiscretizer] Non-numeric features: {str(not_numeric)} in provided "
+            "quantitative_features. Please check your inputs."
+        )
+
         # storing ordering
         all_orders = []
 
